@@ -361,7 +361,12 @@ class OFXClient:
             # As a simplification, we assume that FIs handle all classes
             # of statement request from a single URL.
             urls = set(RqCls2url.values())
-            assert len(urls) == 1
+            if len(urls) != 1:
+                # Not an `assert`: under `python -O` the request (with the user's
+                # credentials) would go to an arbitrary one of the URLs.
+                raise ValueError(
+                    f"OFX profile does not advertise exactly one service URL: {sorted(urls)}"
+                )
             url = urls.pop()
             logger.info(f"Received service url={url} from OFX profile response")
 
@@ -635,7 +640,12 @@ class OFXClient:
             # As a simplification, we assume that FIs handle all classes
             # of statement request from a single URL.
             urls = set(RqCls2url.values())
-            assert len(urls) == 1
+            if len(urls) != 1:
+                # Not an `assert`: under `python -O` the request (with the user's
+                # credentials) would go to an arbitrary one of the URLs.
+                raise ValueError(
+                    f"OFX profile does not advertise exactly one service URL: {sorted(urls)}"
+                )
             url = urls.pop()
 
         logger.info("Creating account info request")
@@ -690,7 +700,12 @@ class OFXClient:
             # As a simplification, we assume that FIs handle all classes
             # of statement request from a single URL.
             urls = set(RqCls2url.values())
-            assert len(urls) == 1
+            if len(urls) != 1:
+                # Not an `assert`: under `python -O` the request (with the user's
+                # credentials) would go to an arbitrary one of the URLs.
+                raise ValueError(
+                    f"OFX profile does not advertise exactly one service URL: {sorted(urls)}"
+                )
             url = urls.pop()
 
         logger.info("Creating tax 1099 request")
